@@ -107,7 +107,9 @@ def generate(rng, seed, part):
     if dtype in ("float16",):
         dtype = "float32"
     cfg = {"ndim": ndim, "axes": axes, "weights": wkind, "exact": wkind != "float", "create": create,
-           "dtype": dtype, "prefill": 0, "vtype": rng.choice(["f64", "f64", "f64", "f32"])}
+           "dtype": dtype, "prefill": 0, "vtype": rng.choice(["f64", "f64", "f64", "f32"]),
+           # an adaptive histogram never has anything to miss, whether or not it would keep track of it
+           "keep_missed": rng.random() < 0.8}
     if create == "class" and rng.random() < 0.4:
         for ax in axes:
             ax["start"] = "bins"
@@ -260,6 +262,8 @@ def make_adaptive(cfg, entries):
                 kw["bin_shift"] = ax["shift"]
             bs.append(FixedWidthBinning(**kw))
         kw = {"dtype": dtype} if dtype is not None else {}
+        if not cfg.get("keep_missed", True):
+            kw["keep_missed"] = False
         if ndim == 1:
             return Histogram1D(bs[0], **kw)
         return (Histogram2D if ndim == 2 else HistogramND)(bs, **kw)
@@ -280,6 +284,8 @@ def make_adaptive(cfg, entries):
             kw["dtype"] = dtype
         if weights is not None:
             kw["weights"] = weights
+        if not cfg.get("keep_missed", True):
+            kw["keep_missed"] = False
         return f_h1(None if data is None else data[:, 0], "fixed_width", **kw)
     kw = {"bin_width": [ax["width"] for ax in axes], "adaptive": True, "dim": ndim}
     if any(not ax["align"] for ax in axes):
@@ -335,6 +341,8 @@ def execute(plan, ctx):
                           f"after {what}: total={h.total!r} but {total_w!r} was entered ({len(bag)} entries); "
                           f"missed={missed_tuple(h)} bins={h.bins!r}"[:1500])
         m = missed_tuple(h)
+        if not cfg.get("keep_missed", True) and ndim == 1:
+            m = tuple(x for x in m if not math.isnan(x))  # (a 1-D histogram that keeps no track reports NaN)
         if any(not num_equal(x, 0.0, exact=exact, scale=scale) for x in m):
             ctx.violation("C04/no-missed", f"C04/missed!=0/{kind}/{what}",
                           f"after {what}: missed bookkeeping {m} (under/over/inner or missed) is not zero; "
